@@ -22,6 +22,18 @@ def nontrivial(b):
     return nt
 
 
+def failed_between(b):
+    """some cycle other than the last one fails after a phase of it has passed (and stored its document)"""
+    cs, cur = [], None
+    for e in b["hist"]:
+        if e["ev"] == "start":
+            cur = []
+            cs.append(cur)
+        elif cur is not None and e["ev"] in ("ts", "sn", "tg", "snmissing", "tgmissing"):
+            cur.append(e)
+    return any(c and c[-1].get("o", "ok") != "ok" and any(e.get("o") == "ok" for e in c[:-1]) for c in cs[:-1])
+
+
 def run(tier, seed):
     v = Verdict(PID, tier, seed)
     states = trans = 0
@@ -57,6 +69,15 @@ def run(tier, seed):
                 # every history in which a served version differs from one trusted before, a third of the rest
                 bs = [b for i, b in enumerate(bs) if nontrivial(b) or i % 3 == seed % 3]
             behaviours += bs
+    # three cycles with an intervening failed one: every history (no root change, V=2) in which a cycle that is not
+    # the last fails after it has stored at least one document
+    g, bs = clientlib.generate("MC_Rollback", "MC_Rollback_check.cfg",
+                               {"ChainId": json.dumps("noChange"), "ShipMode": json.dumps("newest"), "V": 2,
+                                "MaxCycles": 3, "Cons": "FALSE"}, "c03-gen-3cycles", timeout=1700)
+    bs = [b for b in bs if failed_between(b)]
+    for i, b in enumerate(bs):
+        b["id"] = f"three-{i}"
+    behaviours += bs
     if tier == "thorough":
         for chain in CHAINS:
             g, bs = clientlib.generate("MC_Rollback", "MC_Rollback_check.cfg",
